@@ -8,6 +8,11 @@ NEW = {
              "Lv": "L\tC\t+\tA\t-\t3M\tID:Z:{}"},        # takes the place of the virtual link of the base with the path pv
     "gfa2": {"S": "S\t{}\t5\t*", "E": "E\t{}\tA-\tC-\t0\t2\t0\t2\t*", "G": "G\t{}\tA-\tC-\t3\t*", "O": "O\t{}\tA+", "U": "U\t{}\tA"},
 }
+# lines which mention their own identifier where another line is expected: the identifier would be carried twice (by the line and by what it mentions)
+SELF = {"gfa1": ["P\tX9\tX9+,A-\t*", "P\tX9\tA+,X9+\t*", "P\tX9\tA+,B+,X9-\t*", "L\tX9\t+\tA\t+\t*\tID:Z:X9", "L\tA\t+\tX9\t-\t*\tID:Z:X9", "C\tX9\t+\tA\t+\t0\t*\tID:Z:X9",
+                 "C\tA\t+\tX9\t+\t0\t*\tID:Z:X9"],
+        "gfa2": ["E\tX9\tX9+\tA+\t0\t2\t0\t2\t*", "E\tX9\tA+\tX9-\t0\t2\t0\t2\t*", "G\tX9\tX9+\tA-\t3\t*", "G\tX9\tA+\tX9-\t3\t*", "O\tX9\tA+ X9+", "O\tX9\tX9+", "O\tX9\tX9- A+ B+",
+                 "U\tX9\tA X9", "U\tX9\tX9", "U\tX9\tA B X9"]}
 BASES = {"gfa1": [["sA", "sB", "sC"], ["sA", "sB", "sC", "l1", "l10", "c2", "p1"], ["sA", "sB", "sC", "l1", "l7", "p2", "p4"],
                   ["sA", "sB", "sC", "l10", "raw:P\tpv\tC+,A-\t*"],             # a path read before its link: a virtual link C+ A- exists
                   ["sA", "raw:L\tA\t+\t4\t+\t*", "raw:S\t3\t*"]],               # a segment known only by a mention (placeholder) with an integer-looking name
@@ -106,6 +111,14 @@ def check(case):
             written = "\n".join(x for x in str(g).split("\n") if "GFAPY_virtual_line" not in x)      # placeholders of open forward references are not content
             if oracle.view(written, version)[1] != oracle.view(tm2.text(), version)[1]:
                 fail("rename-text-differs", str(oracle.view_diff(oracle.view(tm2.text(), version)[1], oracle.view(written, version)[1])))
+    elif op[0] == "addself":
+        before = sorted(g.names)
+        try:
+            g.add_line(op[1])
+            fail("self-reference-accepted:%s" % op[1][0], "%r accepted: names %r" % (op[1], g.names))
+        except gfapy.Error:
+            if sorted(g.names) != before:
+                fail("self-reference-refused-but-names-changed:%s" % op[1][0], "%r: %r -> %r" % (op[1], before, sorted(g.names)))
     elif op[0] == "unused":
         for _ in range(3):
             n = g.unused_name()
@@ -140,6 +153,8 @@ def cases(tier, seed):
                     if new != old:
                         out.append((version, ids, ("rename", old, new)))
             out.append((version, ids, ("unused",)))
+            for text in SELF[version]:
+                out.append((version, ids, ("addself", text)))
     return out
 
 
@@ -148,7 +163,7 @@ if __name__ == "__main__":
     cs = cases(tier, seed)
     res = harness.run(cs, check,
                       rule="3 catalogue states per version x (add of every identified record type | rename of every identified line) x every identifier class "
-                           "(each identifier in use, fresh, '*', integer-looking '7' '007' '12') + unused_name(); expected: NotUniqueError iff the identifier is in use (U/O onto the same group type may merge); "
+                           "(each identifier in use, fresh, '*', integer-looking '7' '007' '12') + unused_name() + lines naming their own identifier in each reference field, single or list item (refused, names unchanged); expected: NotUniqueError iff the identifier is in use (U/O onto the same group type may merge); "
                            "afterwards UNIQ (pairwise distinct identifiers, line(id) returns the carrier, names without duplicates) and WF hold; a successful rename equals substitution in the text model",
                       bound="single add/rename per state; exhaustive over the identifier pool", exhaustive=True)
     harness.emit(res)
